@@ -110,7 +110,10 @@ def runHistory (d : Defects) (n : Nat) (rules : Nat → List Nat) (ops : List Us
 
 def respond (dbits : String) (n : String) (rules : String) (ops : String) : String :=
   let bits := dbits.toList
-  let d : Defects := { oobRebuildsDepsNotTarget := bits.getD 0 '0' == '1', failedTargetAbortsRun := bits.getD 1 '0' == '1' }
+  let d : Defects :=
+    { oobRebuildsDepsNotTarget := bits.getD 0 '0' == '1'
+      failedTargetAbortsRun := bits.getD 1 '0' == '1'
+      oobRecordsDepsOnCaller := bits.getD 2 '0' == '1' }
   match n.toNat?, parseRules rules, (ops.splitOn ";").mapM parseOp with
   | some n, some rules, some ops => " | ".intercalate (runHistory d n rules ops)
   | _, _, _ => "bad-op"
